@@ -109,6 +109,53 @@ def _span_shapes(pmax, kmax, pdeep, kdeep):
     return out
 
 
+def _end_mult_shapes():
+    out = []
+    for p, m_end, ni in ((2, 2, 1), (3, 2, 0), (3, 3, 1), (1, 1, 1)):
+        for search in ('linear', 'binsearch'):
+            out.append(dict(p=p, m_end=m_end, ni=ni, search=search))
+    return out
+
+
+@scenario('C03', fns=['helpers.find_span_linear', 'helpers.find_span_binsearch', 'helpers.basis_function'],
+          quick=_end_mult_shapes)
+def find_span_repeated_domain_end(ctx, p, m_end, ni, search):
+    """requires: an unclamped knot vector whose domain-end knot U[n] is repeated m_end <= p times to its left
+                 (U[n-m_end+1] = ... = U[n] < U[n+1]), ni interior knots before it; u anywhere in the domain
+       ensures : the span postcondition (non-empty interval; the last non-empty one at the domain end), and the basis
+                 functions of that span are defined there (no division by zero), non-negative and sum to one"""
+    hs = [ctx.num('h%d' % i) for i in range(p + 1)]
+    inner = [ctx.num('k%d' % (i + 1)) for i in range(ni)]
+    e = ctx.num('e')
+    ts = [ctx.num('t%d' % (i + 1)) for i in range(p)]
+    chain = hs + inner + [e] + ts
+    for x, y in zip(chain, chain[1:]):
+        ctx.assume(ctx.lt(x, y))
+    U = hs + inner + [e] * m_end + ts
+    n = p + ni + m_end
+    assert len(U) == n + p + 1 and U[n] is e
+    u = shapes.param_in(ctx, 'u', U[p], U[n])
+    hp = ctx.geomdl('helpers')
+    if search == 'binsearch':
+        shapes.separated_knots(ctx, U, SPAN_TOL)
+        ctx.assume(ctx.sep(u, U[n], SPAN_TOL))
+        f = hp.find_span_binsearch
+    else:
+        f = hp.find_span_linear
+    r = f(p, list(U), n, u)
+    _span_post(ctx, search, p, U, n, u, r)
+    want = spec.span_spec(p, U, n, u)
+    ctx.check_true(search + '.=span_spec', r == want, 'span %r, the last non-empty interval containing u is %r' % (r, want))
+    N = hp.basis_function(p, list(U), want, u)
+    row = spec.basis_row(p, U, want, u)
+    ctx.check_true('basis.count', len(N) == p + 1)
+    total = 0
+    for j, v in enumerate(N):
+        total = total + v
+        ctx.check_eq('basis[%d]=CoxDeBoor' % j, v, row[want - p + j])
+    ctx.check_eq('basis.sum_to_one', total, 1)
+
+
 @scenario('C03', fns=['helpers.find_span_linear', 'helpers.find_span_binsearch', 'helpers.find_spans'],
           quick=lambda: _span_shapes(4, 2, 3, 4), thorough=lambda: _span_shapes(7, 4, 3, 6))
 def find_span(ctx, p, mult, clamped, search):
